@@ -15,7 +15,7 @@ import (
 
 func init() {
 	seqChecks["c18"] = &seqCheck{run: runC18, replay: replayC18,
-		rule: "every string of <=3 (4 thorough) code points over {a,\",\\,\\n,NUL,<,e-acute,U+2028,emoji} through Ref/SoftRef; every JSON value of depth<=2 through Marshal/UnmarshalDataValue; every JSON text from 27 templates x 5 whitespace placements through store.Value (classification vs generic decoding, Equal on all pairs and triples); distinct = distinct (input, reference class) pairs"}
+		rule: "every string of <=3 (4 thorough) code points over {a,\",\\,\\n,NUL,<,e-acute,U+2028,emoji} through Ref/SoftRef; every JSON value of depth<=2 through Marshal/UnmarshalDataValue; every JSON text from 27 templates x 5 whitespace placements through store.Value (classification vs generic decoding, Equal on all pairs and triples, every ordered pair of templates parsed into one variable); distinct = distinct (input, reference class) pairs"}
 }
 
 func c18Ref(s string, emit func(desc, input string)) {
@@ -315,6 +315,15 @@ func runC18(c *seqCtx) {
 		}
 	}
 	c.Sample(`store.Value <- "{ \"rid\": \"a.b\",\"soft\":true}"`)
+	// every ordered pair of templates parsed into one variable
+	for _, t1 := range c18Templates {
+		for _, t2 := range c18Templates {
+			if c.Mine() {
+				c18Reuse(t1, t2, emit)
+				c.Eval("reuse|" + t1 + "|" + t2)
+			}
+		}
+	}
 	decode := func(v store.Value) interface{} {
 		out, _ := json.Marshal(v)
 		var g interface{}
@@ -352,6 +361,40 @@ func runC18(c *seqCtx) {
 	}
 }
 
+// c18Reuse parses t1 and then t2 into the same store.Value variable (as encoding/json does for the elements
+// of a reused slice): the second result must equal a fresh parse of t2, and the package-level
+// store.DeleteValue must still be the delete action afterwards.
+func c18Reuse(t1, t2 string, emit func(desc, input string)) {
+	in := "reuse\x1f" + t1 + "\x1f" + t2
+	var v, fresh store.Value
+	e1 := json.Unmarshal([]byte(t1), &v)
+	e2 := json.Unmarshal([]byte(t2), &v)
+	ef := json.Unmarshal([]byte(t2), &fresh)
+	_ = e1
+	if (e2 == nil) != (ef == nil) {
+		emit(fmt.Sprintf("store.Value: parsing %q after %q into the same variable gives err=%v, a fresh parse gives err=%v", t2, t1, e2, ef), in)
+		return
+	}
+	if e2 == nil {
+		a, _ := json.Marshal(v)
+		b, _ := json.Marshal(fresh)
+		// (the RID field is only meaningful for references: a stale one on another type is not read by anything)
+		isRef := fresh.Type == store.ValueTypeReference || fresh.Type == store.ValueTypeSoftReference
+		if v.Type != fresh.Type || (isRef && v.RID != fresh.RID) || string(a) != string(b) || !v.Equal(fresh) || !fresh.Equal(v) {
+			emit(fmt.Sprintf("store.Value: parsing %q after %q into the same variable gives type %d rid %q %s, a fresh parse gives type %d rid %q %s", t2, t1, v.Type, v.RID, a, fresh.Type, fresh.RID, b), in)
+		}
+	}
+	if out, err := json.Marshal(store.DeleteValue); err != nil || string(out) != `{"action":"delete"}` {
+		emit(fmt.Sprintf("store.DeleteValue marshals to %q (err %v) after parsing %q and %q into one variable", out, err, t1, t2), in)
+	}
+	var d store.Value
+	if err := json.Unmarshal([]byte(`{"action":"delete"}`), &d); err != nil || d.Type != store.ValueTypeDelete {
+		emit(fmt.Sprintf("a delete action no longer parses as one (type %d, err %v) after parsing %q and %q into one variable", d.Type, err, t1, t2), in)
+	} else if out, _ := json.Marshal(d); string(out) != `{"action":"delete"}` {
+		emit(fmt.Sprintf("a parsed delete action marshals to %q after parsing %q and %q into one variable", out, t1, t2), in)
+	}
+}
+
 func replayC18(input string) []string {
 	f := strings.Split(input, "\x1f")
 	var out []string
@@ -363,6 +406,8 @@ func replayC18(input string) []string {
 		c18Data(f[1], emit)
 	case "value":
 		c18Value(f[1], emit, func() {})
+	case "reuse":
+		c18Reuse(f[1], f[2], emit)
 	case "equal":
 		var a, b store.Value
 		json.Unmarshal([]byte(f[1]), &a)
